@@ -44,6 +44,10 @@ impl Rng {
     pub fn pick<'a, T>(&mut self, items: &'a [T]) -> &'a T {
         &items[self.usize(items.len())]
     }
+    /// pick a string slice
+    pub fn s<'a>(&mut self, items: &[&'a str]) -> &'a str {
+        items[self.usize(items.len())]
+    }
     pub fn coin(&mut self) -> bool {
         self.next_u64() & 1 == 1
     }
